@@ -48,7 +48,7 @@ def case_strategy(draw):
     sched = {}
     for ep in ("load", "trees", "measure", "hist"):
         sched[ep] = {"workers": draw(st.sampled_from([2, 3, 4, K, K + 2, 16])), "tape": draw(st.lists(st.integers(0, 15), min_size=0, max_size=40))}
-    return {"mode": mode, "cfg": cfg, "scene": scene, "opts": opts, "sched": sched, "real_pool": draw(st.integers(0, 19)) == 0, "progress": draw(st.sampled_from([False, False, True]))}
+    return {"mode": mode, "cfg": cfg, "scene": scene, "opts": opts, "sched": sched, "real_pool": draw(st.integers(0, 7)) == 0, "real_pool_prior": draw(st.booleans()), "progress": draw(st.sampled_from([False, False, True]))}
 
 
 def cf_arrays(cfs):
@@ -186,12 +186,19 @@ def run_case(case):
 
                     par_._num_processes = lambda: 64
                     cats = [Catalog(tmp / "B" / f"c{i}", max_workers=4) for i in range(ncat)]
+                    if case.get("real_pool_prior"):
+                        # the same process has used these caches before, sequentially and with another
+                        # binning (state kept by the main process must not reach the forked workers)
+                        e = [float(x) for x in edges]
+                        other = [e[0]] + [a + 0.37 * (b - a) for a, b in zip(e[1:-1], e[2:])] + [e[-1]] if len(e) > 2 else [e[0], 0.5 * (e[0] + e[1]), e[1]]
+                        prior_cfg = cfg.modify(edges=other)
+                        run_measure(case, prior_cfg, cats, 1)
                     res = cf_arrays(run_measure(case, cfg, cats, 4))
                     h = HistData.from_catalog(cats[0], cfg, max_workers=3)
                     return res, np.asarray(h.data), np.asarray(h.samples)
 
                 status, payload = run_isolated(job, bound=30.0)
-                ck.cls(f"real-pool:{status}")
+                ck.cls(f"real-pool:{status}" + (":after-sequential-use-with-other-binning" if case.get("real_pool_prior") else ""))
                 if status == "ok":
                     res, hd, hsamp = payload
                     good, why = same(seq, res)
